@@ -6,8 +6,8 @@ import (
 	"encoding/hex"
 	"encoding/json"
 	"fmt"
-	"hash/crc32"
 	"go/types"
+	"hash/crc32"
 	"sort"
 	"strings"
 )
@@ -206,7 +206,7 @@ func init() {
 			ex.yield()
 			return nil
 		},
-		"vNow": func(ex *Exec, fr *frame, a []value) value { return ex.clock.now },
+		"vNow":   func(ex *Exec, fr *frame, a []value) value { return ex.clock.now },
 		"vYield": func(ex *Exec, fr *frame, a []value) value { ex.yield(); return nil },
 		"vSchedExplore": func(ex *Exec, fr *frame, a []value) value {
 			n := int(ex.asInt(a[0]))
@@ -216,6 +216,27 @@ func init() {
 		},
 		"vMapOrderNondet": func(ex *Exec, fr *frame, a []value) value {
 			ex.mapNondet = ex.truth(a[0])
+			return nil
+		},
+		"vIntercept": func(ex *Exec, fr *frame, a []value) value {
+			if ex.icept == nil {
+				ex.icept = map[string]value{}
+			}
+			name := a[0].(string)
+			f := a[1].(iface)
+			if f.t == nil || isNilFunc(f.v) {
+				delete(ex.icept, name)
+			} else {
+				ex.icept[name] = f.v
+			}
+			return nil
+		},
+		"vMapOrderReverse": func(ex *Exec, fr *frame, a []value) value {
+			ex.mapReverse = ex.truth(a[0])
+			return nil
+		},
+		"vMapOrderExclude": func(ex *Exec, fr *frame, a []value) value {
+			ex.mapExclude = append(ex.mapExclude, a[0].(string))
 			return nil
 		},
 		"vTempDir": func(ex *Exec, fr *frame, a []value) value {
